@@ -218,19 +218,22 @@ def mode_cyclic(args):
     from valjean.cosette.scheduler import Scheduler
     from valjean.cosette.backends.queue import QueueScheduling
     failures, n = [], 0
-    for size in (1, 2, 3):
+    # cycles of 1-3 tasks whose edges are hard or soft in every combination (a cycle through a soft dependency is a cycle too)
+    combos = [(size, kinds) for size in (1, 2, 3) for kinds in itertools.product('hs', repeat=size)]
+    for size, kinds in combos:
         for workers in (1, 3):
             log = []
             tasks = _mk_tasks(size, {}, ['done'] * size, log)
             g = DepGraph.from_dependency_dictionary({t: [] for t in tasks})
+            sg = DepGraph.from_dependency_dictionary({t: [] for t in tasks})
             for i in range(size):
-                g.add_dependency(tasks[i], on=tasks[(i + 1) % size])
+                (g if kinds[i] == 'h' else sg).add_dependency(tasks[i], on=tasks[(i + 1) % size])
             before = threading.active_count()
             out = {}
 
             def target():
                 try:
-                    Scheduler(hard_graph=g, backend=QueueScheduling(n_workers=workers)).schedule()
+                    Scheduler(hard_graph=g, soft_graph=sg, backend=QueueScheduling(n_workers=workers)).schedule()
                     out['ret'] = True
                 except DepGraphError:
                     out['err'] = True
@@ -250,7 +253,7 @@ def mode_cyclic(args):
             if leaked > 0:
                 probs.append(f'C03: {leaked} worker thread(s) left behind after the cyclic-graph error')
             if probs:
-                failures.append({'input': {'cycle_of': size, 'workers': workers}, 'observed': probs, 'expected': 'DepGraphError, no thread left'})
+                failures.append({'input': {'cycle_of': size, 'edge_kinds': ''.join(kinds), 'workers': workers}, 'observed': probs, 'expected': 'DepGraphError, no thread left'})
                 if th.is_alive():
                     return {'evaluations': n, 'failures': failures}
     return {'evaluations': n, 'failures': failures}
